@@ -123,6 +123,7 @@ theorem tstep_recOk (f : AbsTtl) (hf : AbsTtlOk f) (cfg : TCfg) (c : TCache σ) 
         by_cases hl : c.now - s.created ≥ n
         · simp [hl, tRecOk]
         · simp only [hl, if_false, tRecOk]
+          simp only [decide_true, Bool.true_and]
           rw [List.any_eq_true]
           refine ⟨r0, hm, ?_⟩
           simp only [tJustifies, hop, hty, origNs, hra, hk'.1, hk'.2, hst, hcr, decide_true, Bool.and_self, Bool.true_and,
@@ -133,6 +134,7 @@ theorem tstep_recOk (f : AbsTtl) (hf : AbsTtlOk f) (cfg : TCfg) (c : TCache σ) 
       | abs =>
         simp only [ttlOf, hty, Option.some.injEq] at httl
         simp only [tRecOk]
+        simp only [decide_true, Bool.true_and]
         rw [List.any_eq_true]
         refine ⟨r0, hm, ?_⟩
         simp only [tJustifies, hop, hty, instNs, hra, hk'.1, hk'.2, hst, hres, decide_true, Bool.and_self,
